@@ -8,6 +8,7 @@ import (
 	"strings"
 	"unicode/utf8"
 
+	bsctypes "github.com/teleport-network/teleport/x/xibc/clients/light-clients/bsc/types"
 	tmclient "github.com/teleport-network/teleport/x/xibc/clients/light-clients/tendermint/types"
 	clienttypes "github.com/teleport-network/teleport/x/xibc/core/client/types"
 	"github.com/teleport-network/teleport/x/xibc/core/host"
@@ -1124,10 +1125,17 @@ var slashHeights = [][2]uint64{
 	{0, 0x2F70726F63657373}, // "/process"
 }
 
+var advHeightsCache [][2]uint64
+
 func genIterHeight(r *hlib.Rand) [2]uint64 {
+	if advHeightsCache == nil {
+		advHeightsCache = advHeights()
+	}
 	switch r.Intn(20) {
-	case 0, 1, 2, 3, 4, 5, 6, 7, 8:
+	case 0, 1, 2, 3, 4:
 		return slashHeights[r.Intn(len(slashHeights))]
+	case 5, 6, 7, 8: // heights spelling the suffixes / prefixes of the client-store key families (corpus.go)
+		return advHeightsCache[r.Intn(len(advHeightsCache))]
 	case 9, 10:
 		pos := uint(8 * r.Intn(8))
 		return [2]uint64{uint64(r.Intn(3)), uint64(r.Intn(1000))&^(0xff<<pos) | 0x2f<<pos}
@@ -1197,6 +1205,33 @@ func genIter(r *hlib.Rand) IterSpec {
 			c.Signers = genHeightList(r, 4)
 			c.Pending = r.Bool()
 		}
+		if c.Type == "eth" {
+			seenE := map[string]bool{}
+			for i, n := 0, r.Intn(4); i < n; i++ {
+				h := genHash(r)
+				if len(h) != 32 {
+					h = append(make([]byte, 32-len(h)), h...)
+				}
+				e := [3]string{hlib.Hex(genHash32(r)), hlib.Hex(h), us(genSeq(r))}
+				// one entry per (root, height) and per (hash, height): a second write of the same key replaces the value
+				if seenE[e[0]+e[2]] || seenE[e[1]+e[2]] {
+					continue
+				}
+				seenE[e[0]+e[2]], seenE[e[1]+e[2]] = true, true
+				c.EthEntries = append(c.EthEntries, e)
+			}
+		}
+		if r.Chance(1, 6) { // raw metadata imported through SetAllClientMetadata: keys the builders never produce
+			seenR := map[string]bool{}
+			for i, n := 0, 1+r.Intn(3); i < n; i++ {
+				k := genRawKey(r)
+				if len(k) == 0 || string(k) == host.KeyClientState || seenR[string(k)] {
+					continue
+				}
+				seenR[string(k)] = true
+				c.Raw = append(c.Raw, hlib.Hex(k))
+			}
+		}
 		s.Clients = append(s.Clients, c)
 	}
 	chain := func() string {
@@ -1223,6 +1258,23 @@ func genIter(r *hlib.Rand) IterSpec {
 		return out
 	}
 	s.Commitments, s.Acks, s.Receipts = fam(), fam(), fam()
+	// by-path iteration: paths of written commitments, paths whose names extend / are cut from them, unrelated paths
+	for i, n := 0, r.Intn(4); i < n; i++ {
+		a, b := hlib.Hex([]byte(chain())), hlib.Hex([]byte(chain()))
+		if len(s.Commitments) > 0 && r.Chance(2, 3) {
+			t := s.Commitments[r.Intn(len(s.Commitments))]
+			a, b = t[0], t[1]
+			switch r.Intn(4) {
+			case 0:
+				b = b + hlib.Hex([]byte{validChars[r.Intn(len(validChars))]})
+			case 1:
+				if len(b) > 6 {
+					b = b[:len(b)-2]
+				}
+			}
+		}
+		s.ByPath = append(s.ByPath, [2]string{a, b})
+	}
 	// next sequences: distinct paths
 	{
 		seenP := map[[2]string]bool{}
@@ -1254,6 +1306,35 @@ func genIter(r *hlib.Rand) IterSpec {
 		s.Relayers = append(s.Relayers, hlib.Hex([]byte(a)))
 	}
 	return s
+}
+
+func genHash32(r *hlib.Rand) []byte {
+	h := genHash(r)
+	if len(h) != 32 {
+		h = append(make([]byte, 32-len(h)), h...)
+	}
+	return h
+}
+
+// genRawKey: a client-store key as a genesis file could carry it: a builder key, or a damaged / foreign one
+func genRawKey(r *hlib.Rand) []byte {
+	lits := familyLiterals()
+	switch r.Intn(6) {
+	case 0:
+		return genPath(r)
+	case 1, 2:
+		return mutateBytes(r, genPath(r))
+	case 3: // a literal, bare or followed by a few bytes
+		l := append([]byte{}, lits[r.Intn(len(lits))]...)
+		if r.Bool() {
+			l = append(l, r.Bytes(r.Intn(20))...)
+		}
+		return l
+	case 4:
+		return []byte(bsctypes.PrefixKeyRecentSingers + "/" + heightStrings[r.Intn(len(heightStrings))])
+	default:
+		return append(append([]byte(host.KeyConsensusStatePrefix+"/"), r.Bytes(r.Intn(20))...), lits[r.Intn(len(lits))]...)
+	}
 }
 
 // ---------------------------------------------------------------- contract
